@@ -105,3 +105,23 @@ def rm(path):
 
 def now():
     return time.time()
+
+
+_SLOW = [0]
+
+
+class _Done:
+    def __init__(self, rc, out=b"", err=b""):
+        self.returncode, self.stdout, self.stderr = rc, out, err
+
+
+def run_bounded(args, cwd=None, timeout=300):
+    """a command of the tree under test that normally takes well under a second: never raises on a time-out (returncode -9),
+    and once one invocation of this run has not ended, the later ones are given less time (a tree that hangs, hangs often)"""
+    if _SLOW[0]:
+        timeout = min(timeout, 60 if _SLOW[0] < 3 else 15)
+    try:
+        return subprocess.run(args, cwd=cwd, capture_output=True, timeout=timeout)
+    except subprocess.TimeoutExpired as e:
+        _SLOW[0] += 1
+        return _Done(-9, e.stdout or b"", e.stderr or b"")
